@@ -16,18 +16,19 @@ CHECKS = {
         "in/not in, greedy and fewest loops with zero-width rejection, alternation, captures, back-references, inline subroutines, calls incl. guarded recursion, stored "
         "patterns with predicates); C01_attempt - an attempt of a whole command yields the FIRST outcome or FAILED; C01_find_all - `find all` = leftmost non-overlapping "
         "non-empty scan of the specification with Value = text[Start:End], bindings and consecutive numbers; C01_oracle_sound; C01_generated_patterns_well_formed - the theorems' hypothesis loop_ok holds for every pattern the generator resolves in every program (loop ids are fresh numbers of its supply), given only that `in` lists are non-empty, which C01_well_formed_from_any_source proves of every tree the parser returns (for every source text); C01_unrolling_preserves_meaning - the generator's unrolled form (m copies of "
-        "the body, then a loop of 0..n-m iterations, nothing when m = n) means the bounded repetition in the specification, for every body whose outcomes always consume something. Windows: C04. Tie to /repo: three-layer "
+        "the body, then a loop of 0..n-m iterations, nothing when m = n) means the bounded repetition in the specification, for every body whose outcomes always consume something; C01_outcomes_are_the_language / C01_no_outcome_iff_no_word / C01_local_atoms - "
+        "the end positions of the specification's outcomes are EXACTLY the words of the textbook language of the pattern (Spec/Lang.v: concatenation, union, bounded iteration of non-empty words, grammar rules for subroutines; no positions or priorities): soundness and completeness of the backtracking semantics, recursion included, for patterns without back-references, predicates, named loops and zero-width atoms; C01_named_loops_same_spans - for patterns without back-references the VM runs of a pattern and of its name-erased form proceed in lock step, so named loops report the same matches (all fields but the variables) and the same crash / fuel verdict as the unnamed form the refinement theorem covers. Windows: C04. Tie to /repo: three-layer "
         "correspondence (bytecode equal up to loop-id renaming, model VM on the implementation's bytecode, end-to-end) plus implementation vs extracted specification, on "
         "generated programs and exhaustive small programs x texts.",
    note="Theorem scope: unnamed loops, `between m and n` with m<=n as written, ASCII caseless literals, hypothesis loop_ok (proved of the generator's output by C01_generated_patterns_well_formed) and existence of a "
         "specification derivation (total for call-free patterns by C10; guarded recursion whenever defined). Atom semantics (classes, anchors) are shared by model and spec and "
-        "tied to the Go code only by the correspondence. Named loops: model + correspondence only. The regular-subset clause (same spans as the equivalent regex) is covered for regex literals under C14.",
+        "tied to the Go code only by the correspondence. Named loops: positions via C01_named_loops_same_spans (no back-references), variable maps via C03 + correspondence. The regular-subset clause (same spans as the equivalent regex) is covered for regex literals under C14.",
    technique="Coq proof (refinement of a backtracking VM to an ordered-outcomes semantics, unbounded) + differential correspondence model/spec/implementation",
    ref="DESIGN.md 7 C01"),
  "C02": dict(
    text="Theorems (closed): C02_vars_of_match - the variables of every reported match are the bindings of the specification's first outcome at that offset, built only along "
         "the successful derivation; C02_alternatives_isolated, C02_capture_binds (binding = text consumed on that path, latest wins), C02_backref_exact. Tie: variables compared "
-        "as sorted maps at all layers on templates that bind on an abandoned alternative/iteration/call and then fail.",
+        "as sorted maps at all layers on templates that bind on an abandoned alternative/iteration/call and then fail. For ARBITRARY bytecode (named loops included): C02_checkpoints_immutable - a VM step only pushes checkpoints or resumes a saved core unchanged; C02_capture_writes_running_core_only.",
    note="Named-loop variable nests are modelled and compared but outside the theorem. The aliasing defect (shared environment map) was repaired in /repo (61584fb); the model is of the repaired code.",
    technique="Coq proof (corollaries of the refinement theorem and inversion lemmas on the semantics) + differential correspondence on abandoned-binding templates",
    ref="DESIGN.md 7 C02"),
@@ -44,8 +45,8 @@ CHECKS = {
    text="Theorems (closed): C08_compile_total - for EVERY sequence of runes the modelled Compile (lexer state machine, token parser, Pratt expression parser, regex-literal sub-parser, semantic "
         "checks, generator) ends with a program or an error value: no index past the end of the token slice or of a regex literal (the Go panics are explicit PCrash results, proved unreachable) and "
         "no loop beyond a fuel that is linear in the source (|src|+2 tokens, 4|tokens|+8 nested parser calls, 4|regex|+8 regex-parser calls); C08_lex_total; C08_tokens_end_with_eof (the invariant "
-        "the parser relies on); C08_regex_total; C08_no_partial_tree. Tie: token stream (ast.VerifLex hook) and syntax tree / error class of the implementation compared with the extracted model on "
-        "corpus + generated programs x every prefix and one-token deletion/duplication/swap, token soups, random bytes, arbitrary regex bodies, nesting to depth 3000; the implementation must return "
+        "the parser relies on); C08_regex_total; C08_no_partial_tree; C08_refuted_code_size_not_bounded_by_source_length (the model's code size is not bounded by the source length: the known finding K25 as a theorem). Tie: token stream (ast.VerifLex hook) and syntax tree / error class of the implementation compared with the extracted model on "
+        "corpus + generated programs x every prefix and one-token deletion/duplication/swap, token soups, random bytes, arbitrary regex bodies (non-ASCII included), process expressions cut short by every statement keyword, nesting to depth 3000; the implementation must return "
         "program xor printable error without panic, hang or 2 GB.",
    note="The model reads runes; unicode classes are concrete for ASCII/Latin-1, so sources with other runes outside strings/comments/regex bodies, invalid UTF-8 and numbers above 6 digits are checked "
         "on the implementation only. 'Bounded memory': known finding K25 (loop counts are unrolled: compile cost grows with the product of nested minimum counts, `find all exactly 99999999 'a'` "
@@ -55,8 +56,8 @@ CHECKS = {
    ref="DESIGN.md 7 C08"),
  "C09": dict(
    text="Theorems (closed): C09_attempt_no_crash - wherever the specification is defined an attempt ends in SUCCESS or FAILED (every VM crash site is an explicit Crashed result "
-        "of the model and is unreachable); C09_find_returns - for call-free, predicate-free patterns `find all` returns a match list on every text; C09_find_returns_when_defined. "
-        "Tie: generated + corpus programs on every prefix of texts and the empty text; any panic/hang of Run on an accepted program is reported.",
+        "of the model and is unreachable); C09_find_returns - for call-free, predicate-free patterns `find all` returns a match list on every text; C09_find_returns_when_defined; UNCONDITIONALLY: C09_well_formed_code_never_crashes - the code compiled from any well-formed resolved pattern never crashes the VM, for any command shape, text and step budget, whether or not the search terminates or the specification is defined (named loops, back-references, unguarded recursion included; continuation-passing step-indexed proof); C09_generated_patterns_well_formed - every pattern the generator resolves from any source text the parser accepts is well formed (calls go to subroutines sitting at that program counter inside the same pattern; `not in` sizes are non-negative), provided stored predicates do not crash; C09_accepted_programs_never_crash - the two combined, from source text to `find`; the full statement (process code included) is false of the faithful model: C09_refuted_division_by_zero and C09_refuted_branch_dependent_type exhibit accepted programs that crash (the known findings K23, K24, by vm_compute). "
+        "Tie: generated + corpus programs on every prefix of texts and the empty text, byte strings with truncated/stray UTF-8 at every distance from the end, every environment name x operator x operand type in transforms and predicates; any panic/hang of Run on an accepted program is reported.",
    note="Known findings (printed, not failed): K23 integer division by zero in process code; K24 a process variable whose static type depends on the branch taken. Process-code safety is the "
         "checker's business (C12). RunFiles/reader side: C06/C07.",
    technique="Coq proof (crash-freedom built into the refinement theorem) + differential correspondence with crash classes",
@@ -64,7 +65,7 @@ CHECKS = {
  "C10": dict(
    text="Theorems (closed): C10_spec_total - the ordered-outcomes semantics is total on call-free patterns (inner induction on |text|-position; the zero-width rejection is what makes "
         "a continued iteration consume); C10_find_terminates - hence the VM's `find all` returns within a finite step budget on every text; C10_spec_total_guarded_recursion - the semantics is total on every pattern whose calls go to subroutines in whose bodies each call sits after something that always consumes input (guarded recursion), "
-        "which with C09_find_returns_when_defined gives termination of the VM there too. Tie: exhaustive nullable programs to "
+        "which with C09_find_returns_when_defined gives termination of the VM there too; C10_find_decided_guarded_recursion - for such patterns the VM's `find all` returns and returns the specification's scan, with no derivation assumed; C10_find_terminates_named_loops - named loops without back-references terminate like their erased form; C10_find_terminates_with_predicates - call-free patterns whose subroutines carry predicates terminate whenever each predicate's process code returns a value on every match text. Tie: exhaustive nullable programs to "
         "depth 3 x all short texts must return whenever the model does.",
    note="Guardedness is stated semantically for the guard (all its outcomes consume) and syntactically for the position of the call; unnamed loops and predicate-free subroutines as in the call-free theorem. "
         "Exponential backtracking is termination; cases where the model exceeds its own step bound are reported as 'both expensive', not as hangs.",
@@ -107,9 +108,8 @@ CHECKS = {
    text="Theorems (closed), for ARBITRARY bytecode (not only generated code: named loops, regex literals, replace commands included), every text and window: C03_step_invariant - "
         "every core the VM holds, running or checkpointed, keeps position inside the text, matched = text[start..pos), line/column in step; C03_matches_located - the result list is "
         "a chain: increasing, non-overlapping, each match with Start<End<=|text|, Value=text[Start:End], Line = 1+newlines before the offset, Column = 1-based byte column, at both ends; "
-        "C03_numbers; C03_replace_same_matches. Tie: all fields of every match compared with the model and with closed forms recomputed in Python from the text alone, on multi-line texts. C03_variables_are_substrings - in the specification every string variable of every outcome of an attempt started at off is text[a,b) with off <= a <= b <= end: a substring of the match value.",
-   note="Column claim: ASCII texts (the implementation counts runes per consumed chunk, the model bytes). The clause 'every string variable is a substring of the match value' is proved for the specification (string variables; named-loop maps are compared only) and checked on the "
-        "implementation (Python oracle) and by correspondence but not yet stated as a theorem (partial).",
+        "C03_numbers; C03_replace_same_matches. Tie: all fields of every match compared with the model and with closed forms recomputed in Python from the text alone, on multi-line texts. C03_variables_are_substrings - in the specification every string variable of every outcome of an attempt started at off is text[a,b) with off <= a <= b <= end: a substring of the match value; C03_variables_are_substrings_any_bytecode - at the level of the VM, for arbitrary bytecode, named loops and their nested iteration maps included: every string variable at any depth of every reported match is a substring of its Value (C03_esub_meaning spells the predicate out).",
+   note="Column claim: ASCII texts (the implementation counts runes per consumed chunk, the model bytes).",
    technique="Coq proof (step invariant + induction over the scan, arbitrary programs) + independent closed-form oracle on the implementation",
    ref="DESIGN.md 7 C03"),
  "C05": dict(
@@ -132,11 +132,11 @@ CHECKS = {
    text="Theorems (closed): C14_regex_roundtrip - for EVERY well-formed regular expression of the supported subset, given as a syntax tree (literal and escaped characters, `.`, \\d \\D \\s \\S, bracket "
         "classes with ranges and negation, plain / non-capturing / named groups, * + ? {m} {m,} {m,n} and lazy forms on any atom or group, alternation of single items, ^ $, numbered and named "
         "back-references, nesting without bound), the regex sub-parser applied to its written form returns exactly the pattern tree the expression denotes (tr_disj: captures _N numbered by opening "
-        "parenthesis, loops with those bounds, lazy = fewest, `.` = not newline, class = in / not in); C14_quantifier_means_bounded_repetition - whatever the generator emits for a quantified reference-free tree (m unrolled copies + a loop of 0..n-m) has exactly the outcomes of `between m and n repetitions` of the body's pattern, for bodies that always consume; C14_regex_parser_total. With C01 (the VM finds what the specification of a pattern tree "
+        "parenthesis, loops with those bounds, lazy = fewest, `.` = not newline, class = in / not in); C14_quantifier_means_bounded_repetition - whatever the generator emits for a quantified reference-free tree (m unrolled copies + a loop of 0..n-m) has exactly the outcomes of `between m and n repetitions` of the body's pattern, for bodies that always consume; C14_regex_parser_total; C14_regex_denotes_its_language - for every regular expression proper (no anchors, no back-references, ASCII, non-nullable quantified atoms, m <= n) whatever the generator resolves from its denotation is in the scope of the language theorem and denotes exactly the textbook language of the expression (Spec/RegexLang.v); C14_regex_finds_its_language - written form -> parser -> generator -> specification: outcomes end exactly at the words of the expression; C14_find_all_reports_words - ... -> VM with nothing assumed: on every text `find all` returns consecutively numbered located non-empty matches each of which is a word of the expression. With C01 (the VM finds what the specification of a pattern tree "
         "defines) the literal finds what its denotation finds. Tie: generated regexes of the subset x short ASCII texts: spans in order and group bindings of `find all @/re/` vs Python's re (a "
         "backtracking engine with back-references) applied position by position; the same programs through the model VM and the extracted specification; the implementation's tree vs the model parser's.",
-   note="PARTIAL on the semantic side: that the denotation (vore pattern tree) has the meaning a conventional engine gives the regex is the definition of tr_disj plus the differential against Python re; "
-        "that unrolled loops mean the bounded repetition is proved for reference-free bodies (C14_quantifier_means_bounded_repetition); there is no separate 'textbook' regex semantics in the development - the ordered-outcomes semantics of the pattern tree plays that role. vore's `|` binds tighter than concatenation, so alternations are "
+   note="Semantic side: WHICH spans can be found is proved against the textbook language for the regular expressions proper; WHICH of them comes first (leftmost alternative, greedy longest, lazy shortest) is the order of the ordered-outcomes semantics, tied to a conventional engine by the differential against Python re; anchors and back-references are outside the language theorems (round trip + quantifier theorem + differential). "
+        "vore's `|` binds tighter than concatenation, so alternations are "
         "generated as the whole content of a group or of the regex; repeated bodies cannot match the empty string (as the property says). Repaired: f46c42b (a capturing group under a quantifier "
         "with minimum >= 1 was rejected: name clash); earlier fix commits repaired the regex-body index panics and group numbering by opening parenthesis.",
    technique="Coq proof (parse-after-print round trip by mutual induction over the regex syntax) + differential against an independent backtracking regex engine",
@@ -200,10 +200,9 @@ CHECKS = {
    text="Theorems (closed): C20_path_matches_iff - the segment matcher (the Go loop: greedy, backtracking to the last star) decides exactly '* = any run of characters, every other character "
         "itself' for ALL patterns and names, any number of stars (invariant: alternatives of an earlier star are subsumed when a later star is reached); C20_path_matches_total - its loop never "
         "runs out of fuel (potential function); C20_file_list_exact - for every finite tree with unique names per directory and every pattern whose directory segments are not all stars, the "
-        "file list is exactly the regular files whose path matches segment by segment (none missing, none extra, no directories). Tie: exhaustive patterns x names over {a,b,.,*} on a real "
+        "file list is exactly the regular files whose path matches segment by segment (none missing, none extra, no directories); C20_file_list_no_duplicates - when no name contains the separator, no path is listed twice. Tie: exhaustive patterns x names over {a,b,.,*} on a real "
         "directory, generated trees with relative and absolute patterns, against an independent Python matcher and the model.",
-   note="Excluded as the property says: all-star directory segments and ./.. segments. os.ReadDir is modelled as the children list; duplicates cannot arise under unique names (NoDup is checked "
-        "on the implementation, not proved). Result paths are compared after filepath.Clean (absolute patterns yield //tmp/...). Repaired: 68c9543 (star matcher), f3a9d0f (debug print).",
+   note="Excluded as the property says: all-star directory segments and ./.. segments. os.ReadDir is modelled as the children list (unique names, no separator inside a name). Result paths are compared after filepath.Clean (absolute patterns yield //tmp/...). Repaired: 68c9543 (star matcher), f3a9d0f (debug print).",
    technique="Coq proof (loop invariant for greedy star matching + fuel potential; induction over path segments) + exhaustive small-scope and generated-tree differential",
    ref="DESIGN.md 7 C20"),
  "C04": dict(
